@@ -5,6 +5,13 @@ PY_SUBSET = ('Python semantics of the executed subset as encoded by pyvc.symexec
              'sequences as len/at theories, path-by-path execution, loops cut at invariants)')
 
 PROPS = {
+    'C15': {
+        'level': 'proof',
+        'proof': [('contracts.lock', None)],
+        'bounded': [],
+        'assumptions': [PY_SUBSET],
+        'explanation': 'monitor invariants of lock.py for any number of threads (per process)',
+    },
     'C18': {
         'level': 'proof',
         'proof': [('contracts.modelsearch', None)],
